@@ -13,7 +13,7 @@ CFG = dict(
                'parking_lot::RwLock / DashMap / ArcSwap (the snapshot pointer swap is one atomic step). Exploration of real interleavings is '
                'exhaustive for the five hand-written configurations (2-3 threads, up to 4 operations) and sampled beyond; it validates the model, '
                'the quantifier is closed by the Coq theorems.',
-    bin='c20', n_quick=1200, n_thorough=16000,
+    bin='c20', n_quick=1200, n_thorough=6000,
     corr_name='Model/ConcSnap.v vs StorageEngine insert/delete/register_rule/get_snapshot_for under the schedule controller',
     rule='configurations = 8 hand-written (writer with two batches vs reader; insert vs delete vs reader; rule registration vs insert into the '
          'view vs reader; two writers reading their own writes; delete batch vs reader; sequential removal of middle/last/only clauses of a '
